@@ -305,6 +305,16 @@ impl Api {
 pub struct Deps<'a> { pub storage: &'a Storage, pub api: Api }
 pub struct DepsMut<'a> { pub storage: &'a mut Storage, pub api: Api }
 impl<'a> DepsMut<'a> {
+    /// `deps.branch()`: a reborrow of the same storage
+    #[verifier::external_body]
+    pub fn branch(&mut self) -> (r: DepsMut<'_>)
+        ensures
+            r.storage@ == old(self).storage@,
+            r.api == old(self).api,
+            final(self).storage@ == final(r.storage)@,
+            final(self).api == old(self).api,
+            *final(final(self).storage) == *final(old(self).storage),
+    { unimplemented!() }
     pub fn as_ref(&self) -> (r: Deps<'_>)
         ensures r.storage@ == old(self.storage)@, r.api == self.api
     { Deps { storage: &*self.storage, api: self.api } }
